@@ -552,13 +552,16 @@ pub fn fam_serial(tier: Tier) -> Vec<Config> {
     let d = Duration::from_secs(5);
     // where the serial tag sits
     for place in ["scenario", "rule", "feature", "custom"] {
-        for nconc in 1..=(if tier == Tier::Quick { 2 } else { 3 }) {
+        for nconc in 1..=3usize {
             for nser in 1..=2usize {
                 for conc in [Some(1usize), Some(2), Some(3), None] {
                     for layout in ["same", "serial-first", "serial-last"] {
                         for lazy in [false, true] {
                             for retry in ["none", "now", "delay", "delay2"] {
                                 if retry == "delay2" && nser < 2 {
+                                    continue;
+                                }
+                                if tier == Tier::Quick && nconc == 3 && !(retry == "delay" || retry == "delay2") {
                                     continue;
                                 }
                                 if place != "scenario" && layout == "same" {
@@ -935,7 +938,7 @@ pub fn fam_panic(tier: Tier) -> Vec<Config> {
 /// Tiny configurations explored at poll granularity (releases after any poll).
 pub fn fam_l1(tier: Tier) -> Vec<Config> {
     let mut out = Vec::new();
-    let bound = if tier == Tier::Quick { 1 } else { 2 };
+    let bound = if tier == Tier::Quick { 2 } else { 3 };
     for (before, after) in hooks4() {
         for conc in [Some(1usize), Some(2)] {
             for serial in [false, true] {
@@ -967,7 +970,7 @@ pub fn fam_l1(tier: Tier) -> Vec<Config> {
                                     vec![Outcome::PanicString, Outcome::Pass],
                                 );
                             }
-                            cfg.max_execs = if tier == Tier::Quick { 400 } else { 200_000 };
+                            cfg.max_execs = if tier == Tier::Quick { 6_000 } else { 400_000 };
                             cfg.name = format!(
                                 "l1/b{}a{}|c{conc:?}|s{}|r{retry}|ff{}|lazy{}",
                                 u8::from(before),
@@ -1092,11 +1095,11 @@ pub fn fam_verdict(tier: Tier) -> Vec<Config> {
 /// any two polls) of small fail-fast / serial / retry-delay / limit configs.
 pub fn fam_l1x(tier: Tier) -> Vec<Config> {
     let mut out = Vec::new();
-    let bound = 2;
-    let cap = if tier == Tier::Quick { 1_500 } else { 400_000 };
+    let bound = 3;
+    let cap = if tier == Tier::Quick { 30_000 } else { 600_000 };
     let finish = |mut c: Config, name: String, out: &mut Vec<Config>| {
         c.gran = Gran::L1;
-        c.bound = Some(if tier == Tier::Quick { bound } else { 3 });
+        c.bound = Some(if tier == Tier::Quick { bound } else { 4 });
         c.max_execs = cap;
         c.plan.gates = GateMode::Steps;
         c.name = name;
